@@ -179,19 +179,23 @@ Example C15_nonvacuous :
 Proof. vm_compute. repeat split; try discriminate; intros H; discriminate. Qed.
 Print Assumptions C15_nonvacuous.
 
-(* component level non-vacuity: the history of the refuted witness on the repaired model, plus a refused restore; the
-   lookups name the right owners and a released port answers nothing *)
+(* component level non-vacuity: the history of the refuted witness on the repaired model, plus a refused restore, a
+   restore whose reprogram fails (the session is then activated afresh), a release whose dataplane delete fails, a
+   failed activation and a failed HA-synced activation; the lookups name the right owners and a released or rolled
+   back port answers nothing *)
 Example C15_component_nonvacuous :
   wf_range ex_raw1 /\ configure repaired ex_raw1 <> None /\
   let s := crun repaired (effective ex_raw1) (comp_init (pool_of repaired ex_raw1))
              [CActivate 1 1 true None; CRestoreDegraded 2 {| b_ip := 1681915905; b_start := 1040; b_end := 1055 |};
-              CActivate 6 2 true None; CRestorePresent 8 4 {| b_ip := 1681915905; b_start := 1041; b_end := 1056 |} 0;
-              CRestorePresent 10 4 {| b_ip := 1681915905; b_start := 1072; b_end := 1087 |} 1;
+              CActivate 6 2 true None; CRestorePresent 8 4 {| b_ip := 1681915905; b_start := 1041; b_end := 1056 |} 0 None;
+              CRestorePresent 10 4 {| b_ip := 1681915905; b_start := 1072; b_end := 1087 |} 1 None;
               CRelease 6 2 [false]; CComplete; CActivate 7 3 true None; CActivate 9 5 false None;
               CSynced 11 5 5 {| b_ip := 1681915905; b_start := 1088; b_end := 1103 |} false None] in
   option_map m_sub (rev_lookup (cp_rev s) 1681915905 1030) = Some 1 /\
   option_map m_sub (rev_lookup (cp_rev s) 1681915905 1040) = Some 3 /\
-  rev_lookup (cp_rev s) 1681915905 1056 = None /\
-  blocks_of (cp_pool s) 4 = [] /\ blocks_of (cp_pool s) 5 = [] /\ cp_sess s = [1; 7].
+  option_map m_sub (rev_lookup (cp_rev s) 1681915905 1056) = Some 4 /\
+  rev_lookup (cp_rev s) 1681915905 1072 = None /\
+  blocks_of (cp_pool s) 4 = [ {| b_ip := 1681915905; b_start := 1056; b_end := 1071 |} ] /\
+  blocks_of (cp_pool s) 5 = [] /\ cp_sess s = [1; 10; 7].
 Proof. vm_compute. repeat split; try discriminate; intros H; discriminate. Qed.
 Print Assumptions C15_component_nonvacuous.
